@@ -88,7 +88,7 @@ def run_block(prop, tier, verif_seed, indices, deadline):
     scen = load_scenario(prop)
     agg = {"evaluations": 0, "nontrivial": 0, "shapes": set(), "schedules": set(), "states": 0, "events": 0,
            "faults": {}, "probes": {}, "violations": [], "samples": [], "digest": 0,
-           "truncated": 0, "skipped": 0, "units": 0, "wall": 0.0}
+           "truncated": 0, "skipped": 0, "units": 0, "wall": 0.0, "known": {}}
     t0 = time.time()
     per_sig = {}
     for i in indices:
@@ -111,6 +111,7 @@ def run_block(prop, tier, verif_seed, indices, deadline):
         agg["digest"] = (agg["digest"] + int(hashlib.sha256(("%d:%s" % (i, res.get("digest", ""))).encode()).hexdigest()[:24], 16)) % (1 << 96)
         _merge_counts(agg["faults"], res.get("faults", {}))
         _merge_counts(agg["probes"], res.get("probes", {}))
+        _merge_counts(agg["known"], res.get("known", {}))
         if res.get("nontrivial"):
             agg["nontrivial"] += 1
             agg["shapes"].add(res.get("shape", ""))
@@ -253,7 +254,7 @@ def check(prop, tier, verif_seed, workers=16, budget=None, wall_cap=None, write_
             except cf.process.BrokenProcessPool:
                 raise HarnessError("worker died")
     agg = {"evaluations": 0, "nontrivial": 0, "events": 0, "states": 0, "faults": {}, "probes": {}, "skipped": 0,
-           "units": 0}
+           "units": 0, "known": {}}
     shapes, schedules = set(), set()
     samples, violations = [], []
     dig = 0
@@ -262,6 +263,7 @@ def check(prop, tier, verif_seed, workers=16, budget=None, wall_cap=None, write_
             agg[k] += r[k]
         _merge_counts(agg["faults"], r["faults"])
         _merge_counts(agg["probes"], r["probes"])
+        _merge_counts(agg["known"], r["known"])
         shapes.update(r["shapes"])
         schedules.update(r["schedules"])
         samples += r["samples"]
@@ -295,10 +297,17 @@ def check(prop, tier, verif_seed, workers=16, budget=None, wall_cap=None, write_
         by_sig.setdefault(v["signature"], []).append(v)
     known_hit, reported = {}, []
     lines = []
+    for sig in sorted(agg["known"]):
+        if sig in open_by_sig:
+            known_hit[sig] = agg["known"][sig]
+            lines.append("KNOWN-FINDING: property=%s %s [%s] (%d occurrences, runs continued)" % (
+                prop, open_by_sig[sig]["what"], sig, agg["known"][sig]))
     for sig in sorted(by_sig):
         group = by_sig[sig]
         if sig in open_by_sig:
-            known_hit[sig] = len(group)
+            known_hit[sig] = known_hit.get(sig, 0) + len(group)
+            if sig in agg["known"]:
+                continue
             lines.append("KNOWN-FINDING: property=%s %s [%s] (%d runs)" % (prop, open_by_sig[sig]["what"], sig, len(group)))
             continue
         withcase = [g for g in group if g["case"] is not None]
